@@ -22,12 +22,15 @@ import (
 	"os"
 	"path/filepath"
 	"regexp"
+	"runtime"
 	"runtime/debug"
 	"sort"
 	"strconv"
 	"strings"
 	"sync"
+	"sync/atomic"
 	"testing"
+	"time"
 
 	"pgregory.net/rapid"
 )
@@ -287,7 +290,9 @@ func Register[C any](name string, opt Options, gen func(t *rapid.T) C, run func(
 			}
 		}
 		rec := &Rec{}
+		current.Store(&runningCase{st: st, name: name, c: c, start: time.Now()})
 		err := safeRun(c, rec)
+		current.Store(nil)
 		canon, jerr := json.Marshal(c)
 		if jerr != nil {
 			panic(fmt.Sprintf("case of %s not serialisable: %v", name, jerr))
@@ -510,7 +515,60 @@ func RunReplay(t *testing.T) {
 }
 
 // Main is TestMain: runs the tests and writes the shard's evidence.
+// runningCase is the case a Register'ed property is executing right now (sequential code under test: a call
+// that never returns can only be noticed from outside).
+type runningCase struct {
+	st    *propStats
+	name  string
+	c     any
+	start time.Time
+}
+
+var current atomic.Pointer[runningCase]
+
+// hangLimit: a single generated case of sequential code takes micro- to milliseconds (the largest ones a few
+// seconds); one that is still running after this long is reported as "does not return". Generous on purpose.
+func hangLimit() time.Duration {
+	if v, err := strconv.Atoi(os.Getenv("VERIF_HANG_SECONDS")); err == nil && v > 0 {
+		return time.Duration(v) * time.Second
+	}
+	return 100 * time.Second
+}
+
+func watchHangs() {
+	limit := hangLimit()
+	for {
+		time.Sleep(time.Second)
+		rc := current.Load()
+		if rc == nil || time.Since(rc.start) < limit {
+			continue
+		}
+		canon, _ := json.Marshal(rc.c)
+		err := fmt.Errorf("HANG: the case has been running for %v; the goroutine executing it:\n%s", time.Since(rc.start).Round(time.Second), hungStack())
+		path := writeReplay(rc.name, "hang", canon, err)
+		rc.st.mu.Lock()
+		rc.st.Violations = []violation{{Replay: path, Error: trunc(err.Error(), 4000)}}
+		rc.st.mu.Unlock()
+		writeEvidence()
+		fmt.Printf("property %s violated: %v\ncase: %s\n", rc.name, trunc(err.Error(), 1500), trunc(string(canon), 2000))
+		os.Exit(1)
+	}
+}
+
+// hungStack returns the stack of the goroutine that runs the test (the one with a frame of package pb's check).
+func hungStack() string {
+	buf := make([]byte, 1<<20)
+	n := runtime.Stack(buf, true)
+	for _, g := range strings.Split(string(buf[:n]), "\n\n") {
+		if strings.Contains(g, "internal/pb.Register") && !strings.Contains(g, "watchHangs") {
+			return trimStack([]byte(g))
+		}
+	}
+	return "(not found)"
+}
+
 func Main(m *testing.M) {
+	go watchHangs()
 	code := m.Run()
 	writeEvidence()
 	os.Exit(code)
